@@ -401,7 +401,8 @@ impl<W: 'static, R: 'static, T: 'static> XSequence<W, R, T> {
             let element = forward_err!(element?);
             forward_err!(heap.push(element)?);
         }
-        let mut ret = Vec::with_capacity(n);
+        // no more than the heap holds can be handed out: the request `n` is not a bound on memory
+        let mut ret = Vec::with_capacity(std::cmp::min(n, heap.len()));
         for _ in 0..n {
             if let Some(e) = forward_err!(heap.pop()?) {
                 ret.push(e)
